@@ -107,6 +107,7 @@ def check(run):
     run.coverage["not_through_coqc"] = len(cases) - len(usable)
     run.coverage["samples"] = [cc.slim(r, ("id", "ver", "type_cql", "rep", "val_coq", "enc_hex")) for r in usable[:5]]
     run.coverage["exhaustive"] = False
+    run.coverage["characterised_observations"] = cc.probe_observations(recs, ("time", "duration", "timestamp"))
     if run.tier == "thorough":
         rc, out = vlib.coqchk("C12")
         run.note("coqchk rc=%s %s" % (rc, out.strip()[-200:]))
